@@ -596,11 +596,11 @@ func runC10(c *fw.Ctx) {
 	h := installHooks(uint64(c.Seed)*7919 + uint64(c.Shard))
 	h.jitter.Store(true)
 	r := c.Rand("futures")
-	for i := 0; i < c.PerShard(c.Pick(480, 12000)); i++ {
+	for i := 0; i < c.PerShard(c.Pick(800, 24000)); i++ {
 		c10Random(c, r, fmt.Sprintf("fut-%d", i))
 	}
 	scen := []string{"body.mid", "body.delivered", "body.end", "cancel.mid", "deref.mid", "cancel-running-sleep", "cancel-running-gate"}
-	for i := 0; i < c.PerShard(c.Pick(192, 3000)); i++ {
+	for i := 0; i < c.PerShard(c.Pick(336, 8000)); i++ {
 		c10Parked(c, fmt.Sprintf("parked-%d", i), scen[(i*c.NShards+c.Shard)%len(scen)])
 	}
 	for k, v := range h.hitCounts() {
